@@ -77,6 +77,25 @@ def run(ctx):
                     r3["failures"].append({"kind": "predicate", "function": "attenuated_signal_test", "case": c, "impl": base,
                                            "impl_carrier": got, "carrier": {"time": tc},
                                            "clause": f"flags differ when the (fractional) times are given as {tc}"})
+    # raw counts in narrow integer arrays: the spread of the values must not be computed in the carrier's own type
+    wide_fail, wide_n = [], 0
+    for c in [c for c in dom if c.get("wide")]:
+        base, _ = ad.impl(c)
+        for dc in ("int16", "int8", "int64"):
+            tr, applied = cc.carrier_transform(dc, None, None)
+            core.KW_TRANSFORM = tr
+            try:
+                got, _ = ad.impl(c)
+            finally:
+                core.KW_TRANSFORM = None
+            if applied["n"]:
+                wide_n += 1
+                if got != base:
+                    wide_fail.append({"kind": "predicate", "function": "attenuated_signal_test", "case": c, "impl": base,
+                                      "impl_carrier": got, "carrier": {"data": dc},
+                                      "clause": f"flags differ when the whole-number series is given as an {dc} array"})
+    r3["failures"] += wide_fail
+    r3["evaluations"] += wide_n
     return adapters.merge(
         [r1, r2, r3, cc.carrier_block(ad, dom, tier, rng), cc.reuse_block(ad, dom, tier, rng)],
         rule="series n<=5 over {missing,0,1,3} on regular (1 s, 60 s) and irregular axes x check types x test_period in "
